@@ -168,6 +168,110 @@ def demux(d, kind):
     d.reach()
 
 
+@meta(bounds="one client stack with two live requests carrying the SAME invoke ID: one to the local station with MAC m, one to "
+             "the station with the same MAC m on remote network 2 (reached through a router the client knows); one inbound "
+             "APDU of the instance's reply kind with a symbolic invoke ID from a symbolic source: the local station, the "
+             "remote station 2:m (relayed by the router), a station m on ANOTHER remote network 3, or the router itself",
+      outside="more than two live transactions; segmented transactions in flight (C05)",
+      stubs=STUBS)
+def demux_routed(d, kind):
+    from bacpypes.pdu import RemoteStation
+    w = World()
+    lan = nl.FaultLAN([], world=w)
+    client = nl.AppStack(nl.make_device("c", 10, numberOfApduRetries=0, apduTimeout=3000), lan)
+    m = PEERS[0]
+    local = nl.RawPeer(m, lan)
+    router = nl.RawPeer(50, lan)
+    client.nsap.update_router_references(None, Address(50), [2, 3])
+    a = nl.private_transfer(Address(m), b"\x01")
+    client.request(a)
+    r = nl.private_transfer(RemoteStation(2, m), b"\x02")
+    r.apduInvokeID = a.apduInvokeID
+    client.request(r)
+    w.settle()
+    if len(router.received) != 1 or len(local.received) != 1:
+        raise Violation("requests-on-the-wire", to_router=len(router.received), to_local=len(local.received))
+    live = {"local": str(Address(m)), "remote-2": str(RemoteStation(2, m))}
+    src = d.pick(["local", "remote-2", "remote-3", "router"], 'source')
+    inv = d.int(0, 255, 'invoke')
+    apdu = reply_octets(kind, inv)
+    if src == "local":
+        local.send(client.address, nl.frame(apdu))
+    elif src == "router":
+        router.send(client.address, nl.frame(apdu))
+    else:
+        net = 2 if src == "remote-2" else 3
+        router.send(client.address, bytes([0x01, 0x08, 0x00, net, 0x01, m]) + apdu)
+    w.settle()
+    completes = kind in COMPLETES and src in live and inv == a.apduInvokeID
+    confs = list(client.confirmations)
+    if completes:
+        if len(confs) != 1:
+            raise Violation("matching-reply-not-delivered", n=len(confs), kind=kind, source=src, invoke=inv)
+        c = confs[0]
+        if c.apduInvokeID != inv or str(c.pduSource) != live[src]:
+            raise Violation("reply-delivered-for-wrong-transaction", got_id=c.apduInvokeID, got_src=str(c.pduSource),
+                            want_src=live[src])
+    elif confs:
+        raise Violation("foreign-reply-applied", n=len(confs), kind=kind, source=src, invoke=inv,
+                        got=[(str(c.pduSource), c.apduInvokeID) for c in confs])
+    # the other transaction (both, if nothing matched) ends by its own timeout, each outcome names its own peer
+    w.run()
+    got = sorted((str(c.pduSource), c.apduInvokeID) for c in client.confirmations)
+    want = sorted((x, a.apduInvokeID) for x in live.values())
+    if got != want:
+        raise Violation("outcomes-do-not-match-requests", got=got, want=want, source=src)
+    for c in client.confirmations[len(confs):]:
+        if not isinstance(c, AbortPDU):
+            raise Violation("untouched-transaction-did-not-time-out", got=nl.outcome_kind(c))
+    if nl.residue(client):
+        raise Violation("residue", r=nl.residue(client))
+    d.reach()
+
+
+@meta(bounds="two complete stacks X and Y that are client and server of one another at the same time: Y asks X something whose "
+             "answer takes three segments, X asks Y something that Y's application answers only at the end; the two "
+             "requests carry the same invoke ID or different ones (symbolic), either is submitted first (symbolic): the "
+             "segmented answer is complete before Y's application has answered, then X gets its answer",
+      outside="lossy medium (C05); more than one transaction per direction",
+      stubs=STUBS)
+def cross_roles(d):
+    w = World()
+    lan = nl.FaultLAN([], world=w)
+    X = nl.AppStack(nl.make_device("x", 20, maxApduLengthAccepted=50, segmentationSupported="segmentedBoth"), lan)
+    Y = nl.AppStack(nl.make_device("y", 21, maxApduLengthAccepted=50, segmentationSupported="segmentedBoth"), lan)
+    X.pt_result = bytes(range(100))
+    Y.pt_mode = "later"
+    same = d.bool('same_invoke_id')
+    y_first = d.bool('y_first')
+    ry = nl.private_transfer(X.address, b"\x01")
+    ry.apduInvokeID = 9
+    rx = nl.private_transfer(Y.address, b"\x02")
+    rx.apduInvokeID = 9 if same else 10
+    for who, req in ((Y, ry), (X, rx)) if y_first else ((X, rx), (Y, ry)):
+        who.request(req)
+    # within the transaction timeouts, with nothing lost, the segmented answer has arrived
+    w.run(duration=1.0)
+    if len(Y.confirmations) != 1 or nl.outcome_kind(Y.confirmations[0]) != "ack" \
+            or nl.payload_of(Y.confirmations[0], 'resultBlock') != bytes(range(100)):
+        raise Violation("segmented-answer-stalled-or-wrong", n=len(Y.confirmations), same_id=bool(same), y_first=bool(y_first),
+                        got=[nl.outcome_kind(c) for c in Y.confirmations])
+    if X.confirmations:
+        raise Violation("answer-before-the-application-answered", got=[nl.outcome_kind(c) for c in X.confirmations])
+    if len(Y.pt_pending) != 1:
+        raise Violation("request-not-indicated-once", n=len(Y.pt_pending))
+    Y.pt_answer(Y.pt_pending[0], result=b"\x77")
+    w.run()
+    if len(X.confirmations) != 1 or nl.outcome_kind(X.confirmations[0]) != "ack" \
+            or nl.payload_of(X.confirmations[0], 'resultBlock') != b"\x77":
+        raise Violation("second-direction-outcome", got=[nl.outcome_kind(c) for c in X.confirmations], same_id=bool(same))
+    if len(Y.confirmations) != 1:
+        raise Violation("outcome-count", n=len(Y.confirmations))
+    if nl.residue(X) or nl.residue(Y) or not w.idle():
+        raise Violation("residue", x=nl.residue(X), y=nl.residue(Y))
+    d.reach()
+
+
 def request_octets(invoke, payload=b"\x05", seg_accepted=True):
     """unsegmented ConfirmedPrivateTransfer request, max APDU code 5, max segs code 4"""
     body = bytes([0x09, 0x07, 0x19, 0x01, 0x2E, 0x60 | len(payload)]) + bytes(payload) + bytes([0x2F])
@@ -254,6 +358,9 @@ def instances(tier):
         out.append(Inst(ids, dict(k=3, npeers=1, chosen=True), budget=150))
         for kind in REPLY_KINDS:
             out.append(Inst(demux, dict(kind=kind), budget=60))
+        for kind in ("simple-ack", "complex-ack", "error", "abort-srv", "segment-ack-srv"):
+            out.append(Inst(demux_routed, dict(kind=kind), budget=60))
+        out.append(Inst(cross_roles, {}, budget=90))
         out.append(Inst(dup_request, {}, budget=60))
     else:
         out.append(Inst(ids, dict(k=5, npeers=3, chosen=False), budget=900, path_timeout=120))
@@ -262,5 +369,7 @@ def instances(tier):
         out.append(Inst(ids, dict(k=4, npeers=1, chosen=True), budget=900, path_timeout=120))
         for kind in REPLY_KINDS:
             out.append(Inst(demux, dict(kind=kind), budget=300))
+            out.append(Inst(demux_routed, dict(kind=kind), budget=300))
+        out.append(Inst(cross_roles, {}, budget=300))
         out.append(Inst(dup_request, {}, budget=300))
     return out
